@@ -380,6 +380,54 @@ static int run_state_mode(FILE* f)
     return worst ? 1 : 0;
 }
 
+static unsigned long long h_draws[16];
+// history mode: the listed calls from the real constructor; clauses evaluated around every call (not for C08)
+static void run_hist(const Call* hs, int nh, bool verbose)
+{
+    g_now_ticks = 0;
+    last_now    = 0;
+    size_t next_draw = 0;
+    (void)next_draw;
+    DECL_C(c);
+    Abs pre, post;
+    alpha_real(c, pre);
+    g_step = 0;
+    for (int i = 0; i < nh; ++i)
+    {
+        const unsigned long long op = hs[i].op, k = hs[i].k, v = hs[i].v, al = hs[i].al, pk = hs[i].pk;
+        const long long          ttl = hs[i].ttl, now = hs[i].now;
+        Ev ev;
+        ev.op = (int)op; ev.k = k; ev.v = v; ev.a = (uint8_t)al; ev.pk = pk != 0; ev.ttl = ttl; ev.now = now;
+#if T_POLICY == P_RR
+        // make the real engine's next draw over [0, size-1] equal the solver's
+        unsigned long long draw = h_draws[next_draw & 15];
+        const bool will_draw = (op == OP_INSERT) && c.size() == HCAP && (al & 1) && !c.find(k).has_value();
+        if (will_draw)
+            ++next_draw;
+        if (c.size() > 0)
+        {
+            size_t n = c.size();
+            for (unsigned s = 1; s < 100000; ++s)
+            {
+                std::mt19937                          g(s);
+                std::uniform_int_distribution<size_t> d{0, n - 1};
+                if (d(g) == (size_t)(draw % n)) { c.m_mt.seed(s); break; }
+            }
+        }
+#endif
+        Res r;
+        exec_call(c, ev, r);
+        last_now = ev.now;
+        if (g_prop != 8) alpha_real(c, post);
+        if (verbose)
+            printf("step %d op=%d k=%llu v=%llu a=%llu pk=%llu ttl=%lld now=%lld -> ok=%d val=%llu cnt=%llu n=%zu size=%zu\n", g_step,
+                   (int)op, k, v, al, pk, ttl, now, (int)r.ok, (unsigned long long)r.val, (unsigned long long)r.cnt, r.n, r.size);
+        if (g_prop != 8) check_clauses(pre, post, ev, r);
+        pre = post;
+        ++g_step;
+    }
+}
+
 int main(int argc, char** argv)
 {
     if (argc < 3) return 2;
@@ -394,61 +442,61 @@ int main(int argc, char** argv)
     long long a_, b_;
     if (fscanf(f, " cfg %lld %lld", &a_, &b_) != 2) return 2;
     cfg_ttl = a_; cfg_tick = b_;
-    g_now_ticks = 0;
+    { long pos = ftell(f); char w[16]; int q = 0; if (fscanf(f, " %15s %d", w, &q) == 2 && !strcmp(w, "mlf4") && q > 0) cfg_mlf = q / 4.0f; else fseek(f, pos, SEEK_SET); }
+    // the solver's random draws, in the order the library consumes them ("draws d0 d1 ..." line, optional)
     {
-        DECL_C(c);
-        Abs pre, post;
-        alpha_real(c, pre);
-        unsigned long long op, k, v, al, pk, draw;
-        long long ttl, now;
-        g_step = 0;
-        // the solver's random draws, in the order the library consumes them ("draws d0 d1 ..." line, optional)
-        unsigned long long draws[16] = {0};
-        size_t             next_draw = 0;
-        {
-            long pos = ftell(f);
-            char word[16];
-            while (fscanf(f, " %15s", word) == 1)
-                if (!strcmp(word, "draws"))
-                {
-                    for (int i = 0; i < 16; ++i)
-                        if (fscanf(f, " %llu", &draws[i]) != 1)
-                            break;
-                    break;
-                }
-            fseek(f, pos, SEEK_SET);
-        }
-        while (fscanf(f, " %llu %llu %llu %llu %llu %lld %lld %llu", &op, &k, &v, &al, &pk, &ttl, &now, &draw) == 8)
-        {
-            Ev ev;
-            ev.op = (int)op; ev.k = k; ev.v = v; ev.a = (uint8_t)al; ev.pk = pk != 0; ev.ttl = ttl; ev.now = now;
-#if T_POLICY == P_RR
-            // make the real engine's next draw over [0, size-1] equal the solver's
-            draw = draws[next_draw & 15];
-            const bool will_draw = (op == OP_INSERT) && c.size() == HCAP && (al & 1) && !c.find(k).has_value();
-            if (will_draw)
-                ++next_draw;
-            if (c.size() > 0)
+        long pos = ftell(f);
+        char word[16];
+        while (fscanf(f, " %15s", word) == 1)
+            if (!strcmp(word, "draws"))
             {
-                size_t n = c.size();
-                for (unsigned s = 1; s < 100000; ++s)
-                {
-                    std::mt19937                          g(s);
-                    std::uniform_int_distribution<size_t> d{0, n - 1};
-                    if (d(g) == (size_t)(draw % n)) { c.m_mt.seed(s); break; }
-                }
+                for (int i = 0; i < 16; ++i)
+                    if (fscanf(f, " %llu", &h_draws[i]) != 1)
+                        break;
+                break;
             }
-#endif
-            Res r;
-            exec_call(c, ev, r);
-            last_now = ev.now;
-            if (g_prop != 8) alpha_real(c, post);
-            printf("step %d op=%d k=%llu v=%llu a=%llu pk=%llu ttl=%lld now=%lld -> ok=%d val=%llu cnt=%llu n=%zu size=%zu\n", g_step,
-                   (int)op, k, v, al, pk, ttl, now, (int)r.ok, (unsigned long long)r.val, (unsigned long long)r.cnt, r.n, r.size);
-            if (g_prop != 8) check_clauses(pre, post, ev, r);
-            pre = post;
-            ++g_step;
+        fseek(f, pos, SEEK_SET);
+    }
+    static Call hs[64];
+    int         nh = 0;
+    {
+        unsigned long long draw;
+        while (nh < 60 && fscanf(f, " %llu %llu %llu %llu %llu %lld %lld %llu", &hs[nh].op, &hs[nh].k, &hs[nh].v, &hs[nh].al, &hs[nh].pk, &hs[nh].ttl,
+                                 &hs[nh].now, &draw) == 8)
+            ++nh;
+    }
+    run_hist(hs, nh, true);
+    // C08: the solver's history ends where the standard's contract is first broken (e.g. an insertion that may rehash while
+    // iterators are stored); the undefined behaviour shows on the real build when the stale state is USED.  Search short
+    // continuations (the sanitizers / checked iterators abort the process at the first one that does).
+    if (g_prop == 8 && g_fail == 0 && nh > 0)
+    {
+        uint64_t keys[16]; int nk = 0;
+        for (int i = 0; i < nh; ++i) { bool has = false; for (int j = 0; j < nk; ++j) if (keys[j] == hs[i].k) has = true; if (!has && nk < 12) keys[nk++] = hs[i].k; }
+        keys[nk++] = 0xABCD000000000001ULL; keys[nk++] = 0xABCD000000000002ULL;
+        static Call cand[64]; int nc = 0;
+        const int ops[5] = {OP_INSERT, OP_ERASE, OP_FIND, OP_CLEAN, OP_AGE};
+        for (int oi = 0; oi < 5; ++oi)
+        {
+            if (!op_valid(ops[oi])) continue;
+            const bool keyed = oi < 3;
+            for (int ki = 0; ki < (keyed ? nk : 1) && nc < 64; ++ki)
+            {
+                Call c; c.op = ops[oi]; c.k = keys[ki]; c.v = 8800 + nc; c.al = 3; c.pk = 0; c.ttl = cfg_ttl > 0 ? cfg_ttl : 5; c.now = hs[nh - 1].now;
+                cand[nc++] = c;
+            }
         }
+        for (int depth = 1; depth <= 3 && nh + depth < 64; ++depth)
+        {
+            long total = 1; for (int d = 0; d < depth; ++d) total *= nc;
+            for (long it = 0; it < total; ++it)
+            {
+                long x = it;
+                for (int d = 0; d < depth; ++d) { hs[nh + d] = cand[x % nc]; x /= nc; }
+                run_hist(hs, nh + depth, false);
+            }
+        }
+        printf("CONTINUATIONS-EXPLORED up to depth 3: no sanitizer / checked-iterator abort\n");
     }
     fclose(f);
 #ifdef VAL_COUNTED
